@@ -501,7 +501,8 @@ def check_fuzzy(case, stats: Stats):
         raise Violation(f'letter case of the text changed fuzzy({w!r}) on {text!r}', case, 'law-case')
     if case['typo'] in ('delete', 'substitute') and not F(w):
         raise Violation(f'documented typo tolerance: {seen!r} (one {case["typo"]}) inside {text!r} does not fuzzy-match {w!r} at the default threshold', case, 'fuzzy-typo')
-    if case['typo'] == 'unrelated' and F(w, 0.9):
+    if case['typo'] == 'unrelated' and not case['before'] and not case['after'] and F(w, 0.9):
+        # (only when the unrelated text stands alone: generated neighbour words may themselves resemble the pattern - 'NETFLIX COM' is one edit from 'Netflix.com')
         raise Violation(f'fuzzy({w!r}, 0.9) matches unrelated text {text!r}', case, 'fuzzy-unrelated')
     stats.case(jhash(case), case['typo'] != 'none' and bool(case['before'] or case['after']), {'fuzzy', 'fuzzy_' + case['typo'], 'fuzzy_text_arg' if targ else 'fuzzy_description'},
                sample={'text': text, 'word': w} if len(stats.samples) < 2 else None)
